@@ -35,7 +35,9 @@ MODEL (kskm_driver_pkgi): the same program is run by log replay against the reco
 operation sequence must agree) and on the object table before the operation (result + object table afterwards must
 agree).  The model mirrors the code AS REPAIRED by proposed_fixes/F9a, F9b, F14: on an unrepaired tree the three defects
 are reported by the oracle as violations with the failing history (and the model comparison is skipped for exactly those
-operations).
+operations).  corpus/C19_findings.json holds the failing histories of F9a, F9b, F14; they run first on every invocation.
+A model answer "unsupported" (the replaying oracle or the hash table was asked something that was not recorded) is a
+DISAGREEMENT, never silently "unsupported".
 """
 
 from __future__ import annotations
@@ -682,29 +684,29 @@ def compare_model(op: dict[str, Any], run: dict[str, Any], o: dict[str, Any], re
     m = o["result"]
     # (1) log replay: result and complete operation sequence
     if lib.is_unsupported(m):
-        # the recorded token was asked something else than the model asks at some point (the replaying oracle answers
-        # "other"): on an unrepaired tree this is every keygen that reaches C_GenerateKeyPair (F9a: the private-class
-        # lookup is missing).  Counted; the store-backed comparison below still applies.
-        res.unsupported += 1
-        res.bump("replay-unsupported:" + what)
-    else:
+        # The model left the recorded run: the replaying oracle was asked something else than was recorded (it then
+        # answers "other") or a hash was asked that the implementation never computed.  That IS a difference between
+        # model and implementation (e.g. the unrepaired F9a code skips the private-class lookup), never "unsupported".
         d = C.first_log_difference(run["log"], o["log"])
-        m_ok = isinstance(m, dict) and "ok" in m
-        if ("ok" in impl) != m_ok:
-            res.disagreement(f"{what}: model result (log replay) != implementation", ctx, impl, m, log_difference=d)
-            return
-        if d is not None:
-            res.disagreement(f"{what}: model issues different token operations", ctx, impl, m if not m_ok else "ok", log_difference=d)
-            return
+        res.disagreement(f"{what}: model leaves the recorded run (replay / oracle miss)", ctx, impl, m, log_difference=d)
+        return
+    d = C.first_log_difference(run["log"], o["log"])
+    m_ok = isinstance(m, dict) and "ok" in m
+    if ("ok" in impl) != m_ok:
+        res.disagreement(f"{what}: model result (log replay) != implementation", ctx, impl, m, log_difference=d)
+        return
+    if d is not None:
+        res.disagreement(f"{what}: model issues different token operations", ctx, impl, m if not m_ok else "ok", log_difference=d)
+        return
     if o.get("init") == "failed":
         return
     # (2) the same program on the object table
     sr = o["storeResult"]
     if lib.is_unsupported(sr):
-        res.bump("store-unsupported:" + what)
+        res.disagreement(f"{what}: store-backed run declines (oracle miss)", ctx, impl, sr)
         return
     s_ok = isinstance(sr, dict) and "ok" in sr
-    if not lib.is_unsupported(m) and json.dumps(sr, sort_keys=True) != json.dumps(m, sort_keys=True) and not ("error" in sr and "error" in m):
+    if json.dumps(sr, sort_keys=True) != json.dumps(m, sort_keys=True) and not ("error" in sr and "error" in m):
         res.disagreement(f"{what}: store-backed run and log replay of the same program disagree", ctx, m, sr)
         return
     if ("ok" in impl) != s_ok:
@@ -791,6 +793,30 @@ def explore(lay: dict[str, Any], depth: int, tier: str, res: Result, pending: li
     res.bump("distinct_states", len(seen))
 
 
+CORPUS = lib.VERIF / "corpus" / "C19_findings.json"
+
+
+def corpus_first(res: Result, pending: list[Any]) -> None:
+    """The recorded failing histories (F9a, F9b, F14: repaired in /repo) run first on every invocation: initial layout,
+    history, failing operation.  A returning defect is a VIOLATION with that history as replay."""
+    if not CORPUS.exists():
+        return
+    for entry in json.loads(CORPUS.read_text()):
+        ctx = dict(entry["case"])
+        ctx["corpus"] = entry["id"]
+        state = dict(ctx["initial"])
+        for op in ctx["history"]:
+            state = run_op(state, "empty", op)["after"]
+        run_ = run_op(state, ctx["config"], ctx["op"])
+        res.count({"corpus": entry["id"]})
+        res.bump("corpus:entries")
+        vkey = judge(state, ctx["op"], run_, res, ctx)
+        if vkey is not None:
+            res.bump("corpus:reproduced")
+            res.notes.append(f"corpus entry {entry['id']} reproduces: {vkey}")
+        pending.append((ctx["op"], run_, ctx, vkey))
+
+
 def run(tier: str, driver_ok: bool) -> Result:
     res = Result("C19")
     depth = 4 if tier == "quick" else 5
@@ -801,6 +827,7 @@ def run(tier: str, driver_ok: bool) -> Result:
     )
     r = lib.rng("C19")
     pending: list[Any] = []
+    corpus_first(res, pending)
     seen_global: set[str] = set()
     budget = [60000 if tier == "quick" else 10**9]
     for lay in layouts(tier, r):
